@@ -308,8 +308,10 @@ func (d *TCPDialer) dial(addr string, dualStack bool, timeout time.Duration) (ne
 	}
 	addrs, idx, err := d.getTCPAddrs(addr, dualStack, deadline)
 	if err != nil {
+		vhook("td.resolve.err", d, addr, 0, 0)
 		return nil, err
 	}
+	vhook("td.addrs", d, addr, int(idx), len(addrs))
 	d.startTCPAddrsClean()
 	var conn net.Conn
 	n := uint32(len(addrs)) // #nosec G115
@@ -330,7 +332,9 @@ func (d *TCPDialer) tryDial(
 	network string, addr string, deadline time.Time, concurrencyCh chan struct{},
 ) (net.Conn, error) {
 	timeout := time.Until(deadline)
+	vhook("td.try", d, addr, 0, 0)
 	if timeout <= 0 {
+		vhook("td.expired", d, addr, 0, 0)
 		return nil, wrapDialWithUpstream(ErrDialTimeout, addr)
 	}
 
@@ -347,10 +351,13 @@ func (d *TCPDialer) tryDial(
 			}
 			ReleaseTimer(tc)
 			if isTimeout {
+				vhook("td.slot.timeout", d, addr, 0, 0)
 				return nil, wrapDialWithUpstream(ErrDialTimeout, addr)
 			}
 		}
+		vhook("td.slot.acq", d, addr, len(concurrencyCh), cap(concurrencyCh))
 		defer func() { <-concurrencyCh }()
+		defer vhook("td.slot.rel", d, addr, 0, 0)
 	}
 
 	dialer := net.Dialer{}
@@ -360,7 +367,9 @@ func (d *TCPDialer) tryDial(
 
 	ctx, cancelCtx := context.WithDeadline(context.Background(), deadline)
 	defer cancelCtx()
+	vhook("td.dial.begin", d, addr, 0, 0)
 	conn, err := dialer.DialContext(ctx, network, addr)
+	vhook("td.dial.end", d, err, 0, 0)
 	if err != nil {
 		if ctx.Err() == context.DeadlineExceeded {
 			return nil, wrapDialWithUpstream(ErrDialTimeout, addr)
